@@ -403,7 +403,12 @@ class NameBinding(Binding):
             elif isinstance(node, ast.ExceptHandler):
                 node.name = new_name
             elif isinstance(node, (ast.Global, ast.Nonlocal)):
-                node.names = [new_name if n == self._name else n for n in node.names]
+                # Match on the original names: another name in this statement may already have been renamed to our old name
+                if not hasattr(node, 'original_names'):
+                    node.original_names = list(node.names)
+                node.names = [
+                    new_name if original == self._name else current for original, current in zip(node.original_names, node.names)
+                ]
             elif isinstance(node, ast.arguments):
 
                 rename_vararg = (node.vararg == self._name) and not getattr(node, 'vararg_renamed', False)
